@@ -237,7 +237,7 @@ Proof.
   rewrite has_crash_app, Ho1. exact IH.
 Qed.
 
-Definition nbeh : beh := mkBeh (DExit 0) false false true None false.
+Definition nbeh : beh := mkBeh (DExit 0) false false true None false true.
 
 (* the old witness of C17-e: KILL during the start-up poll; the poll loop notices, waits, reports *)
 Lemma ctl_kill_during_poll :
@@ -424,7 +424,7 @@ Qed.
 Lemma gc_inv_init : gc_inv cinit.
 Proof. split; [|split]; [intro H; discriminate H|intro H; discriminate H|exact I]. Qed.
 
-Definition fbeh : beh := mkBeh (DExit 0) true true true None false.
+Definition fbeh : beh := mkBeh (DExit 0) true true true None false true.
 Lemma ctl_kill_sweeps_forked_child :
   let '(s, t) := crun fbeh cinit [ALaunch; ADialOk; APollReady; AKill; AKillStep; AKillStep; AKillStep] in
   c_crashed s = false /\ c_kpc s = KFin /\ sigs t = [TERM; INT; KILL9] /\
@@ -673,7 +673,7 @@ Qed.
 
 (* the old witnesses of the hang (C17-d) and of the crash after it (C17-i): a child that died by a
    signal, STOP, next run, STOP, KILL, the second child ends — every request is answered *)
-Definition sbeh : beh := mkBeh DSig false false true None false.
+Definition sbeh : beh := mkBeh DSig false false true None false true.
 Definition stuck_sched : list action :=
   [ALaunch; ATimer; AReq RStart; AExit 0; AReap 0; AReq RStop; AReq RStart; AReq RStop].
 
@@ -770,7 +770,7 @@ Lemma hook_kill_leaves_child_running :
 Proof. vm_compute. split; reflexivity. Qed.
 
 (* the old witnesses of C17-b (basic) and C17-h: nothing survives *)
-Definition fkbeh : beh := mkBeh (DExit 0) false true true None false.
+Definition fkbeh : beh := mkBeh (DExit 0) false true true None false true.
 Lemma basic_kill_and_late_stop_leave_nothing :
   existsb child_live (b_children (fst (brun fkbeh false binit [ALaunch; ATimer; AReq RStart; AKill]))) = false /\
   existsb child_live (b_children (fst (brun fkbeh false binit
@@ -1023,4 +1023,31 @@ Lemma basic_start_refused b s s' o :
   bstep b false s (AReq RStart) = (s', o) -> s' = s /\ o = [OResp RStart false].
 Proof.
   intros Hc Ha Hu HS. unfold bstep, breq in HS. rewrite Hc, Ha, Hu in HS. cbn in HS. inv HS. auto.
+Qed.
+
+(* ---------- the soft-teardown loop of ControllableTask.Kill ends, whatever the device answers ---------- *)
+Lemma transition_checks_dst : et_transition_checks_dst = true.
+Proof. reflexivity. Qed.
+
+Definition drank (s : dstate) : nat :=
+  match s with DRunning => 3 | DConfigured => 2 | DDone => 0 | _ => 1 end.
+
+Lemma teardown_walk_fin fuel : forall st replies k,
+  (drank st <= fuel)%nat -> snd (teardown_walk fuel st replies k) = true.
+Proof.
+  induction fuel as [|f IH]; intros st replies k Hr.
+  - destruct st; cbn in Hr; try lia. reflexivity.
+  - destruct st; cbn [teardown_walk next_dst]; try reflexivity;
+      unfold accept_reply; rewrite transition_checks_dst;
+      destruct (replies k) as [[[] st']|]; try reflexivity;
+      destruct st'; cbn [dstate_eqb]; try reflexivity;
+      apply IH; cbn in *; lia.
+Qed.
+
+(* an accepted step is a step towards DONE: the state the loop goes on with is the destination *)
+Lemma accept_reply_dst dst r st' : accept_reply dst r = Some st' -> st' = dst.
+Proof.
+  unfold accept_reply. rewrite transition_checks_dst.
+  destruct r as [[[] st]|]; try discriminate.
+  destruct st, dst; cbn; intro H; inv H; reflexivity.
 Qed.
